@@ -4,8 +4,11 @@
 (* loaders is edited (Set / Delete on one member) between look-ups through *)
 (* the multi loader.  Contract: every Exists and every Open is answered by *)
 (* the first member that has the path *now* - nothing a previous look-up   *)
-(* found is remembered.  A history of operations with the expected answers *)
-(* is one vector.                                                          *)
+(* found is remembered.  The stack is nested: the outer multi loader holds *)
+(* an inner multi loader and the last member; the inner one gains members  *)
+(* (AddLoaders) or loses all of them (ClearLoaders) while the outer one is *)
+(* in use, and the outer one sees that.  A history of operations with the  *)
+(* expected answers is one vector.                                         *)
 (***************************************************************************)
 EXTENDS Naturals, Sequences, FiniteSets, TLC, Json
 
@@ -15,13 +18,16 @@ Paths == {"a", "b"}
 None  == ""
 
 VARIABLES files,   \* files[i][p]: content of path p in member i, or None
+          inner,   \* members of the inner multi loader, in order (a sequence over 1..NLoaders-1)
           hist     \* operations so far, with the answers of the look-ups
-vars == <<files, hist>>
+vars == <<files, inner, hist>>
 
-Init == files = [i \in 1..NLoaders |-> [p \in Paths |-> None]] /\ hist = <<>>
+Init == files = [i \in 1..NLoaders |-> [p \in Paths |-> None]] /\ inner = <<1>> /\ hist = <<>>
 
-Owners(p) == {i \in 1..NLoaders : files[i][p] # None}
-Owner(p)  == IF Owners(p) = {} THEN 0 ELSE CHOOSE i \in Owners(p) : \A j \in Owners(p) : i <= j
+\* look-up order of the outer loader: the inner loader's members, then member NLoaders
+Order == Append(inner, NLoaders)
+Pos(p) == {k \in 1..Len(Order) : files[Order[k]][p] # None}
+Owner(p)  == IF Pos(p) = {} THEN 0 ELSE Order[CHOOSE k \in Pos(p) : \A j \in Pos(p) : k <= j]
 
 Op(k, i, p, ans) == [op |-> k, l |-> i, p |-> p, ans |-> ans]
 More == Len(hist) < MaxOps
@@ -30,21 +36,30 @@ More == Len(hist) < MaxOps
 DoSet(i, p) == /\ More
                /\ LET c == "L" \o ToString(i) \o ":" \o p \o "#" \o ToString(Len(hist) + 1) IN
                   /\ files' = [files EXCEPT ![i][p] = c]
-                  /\ hist' = Append(hist, Op("set", i, p, c))
+                  /\ hist' = Append(hist, Op("set", i, p, c)) /\ UNCHANGED inner
 DoDelete(i, p) == /\ More /\ files[i][p] # None
                   /\ files' = [files EXCEPT ![i][p] = None]
-                  /\ hist' = Append(hist, Op("delete", i, p, ""))
-DoExists(p) == /\ More /\ hist' = Append(hist, Op("exists", 0, p, IF Owner(p) = 0 THEN "no" ELSE "yes")) /\ UNCHANGED files
-DoOpen(p)   == /\ More /\ hist' = Append(hist, Op("open", 0, p, IF Owner(p) = 0 THEN "ERR" ELSE files[Owner(p)][p])) /\ UNCHANGED files
+                  /\ hist' = Append(hist, Op("delete", i, p, "")) /\ UNCHANGED inner
+DoExists(p) == /\ More /\ hist' = Append(hist, Op("exists", 0, p, IF Owner(p) = 0 THEN "no" ELSE "yes")) /\ UNCHANGED <<files, inner>>
+DoOpen(p)   == /\ More /\ hist' = Append(hist, Op("open", 0, p, IF Owner(p) = 0 THEN "ERR" ELSE files[Owner(p)][p])) /\ UNCHANGED <<files, inner>>
+\* inner.AddLoaders(member i) / inner.ClearLoaders() while the outer loader is in use
+DoAddInner(i) == /\ More /\ i \in 2..(NLoaders - 1) /\ \A k \in 1..Len(inner) : inner[k] # i
+                 /\ inner' = Append(inner, i) /\ hist' = Append(hist, Op("addinner", i, "", "")) /\ UNCHANGED files
+DoClearInner  == /\ More /\ inner # <<>>
+                 /\ inner' = <<>> /\ hist' = Append(hist, Op("clearinner", 0, "", "")) /\ UNCHANGED files
 
-Next == \E p \in Paths : DoExists(p) \/ DoOpen(p) \/ \E i \in 1..NLoaders : DoSet(i, p) \/ DoDelete(i, p)
+Next == \/ \E p \in Paths : DoExists(p) \/ DoOpen(p) \/ \E i \in 1..NLoaders : DoSet(i, p) \/ DoDelete(i, p)
+        \/ DoClearInner \/ \E i \in 1..NLoaders : DoAddInner(i)
 Spec == Init /\ [][Next]_vars
 
 \* sanity of the contract: an answer never comes from a member behind one that has the path
-FirstWins == \A p \in Paths : Owner(p) # 0 => \A j \in 1..(Owner(p) - 1) : files[j][p] = None
+FirstWins == \A p \in Paths : Owner(p) # 0 =>
+               \A k \in 1..Len(Order) : (files[Order[k]][p] # None /\ Order[k] # Owner(p)) =>
+                   \E j \in 1..(k - 1) : Order[j] = Owner(p)
 
 \* only histories that end in a look-up and contain an edit are worth replaying
 Interesting == /\ hist # <<>> /\ hist[Len(hist)].op \in {"exists", "open"}
                /\ \E k \in 1..Len(hist) : hist[k].op \in {"set", "delete"}
+               /\ \E k \in 1..Len(hist) : hist[k].op = "set"
 EmitVec == (Emit /\ Interesting) => PrintT(<<"VEC", ToJson([n |-> NLoaders, hist |-> hist])>>)
 =============================================================================
